@@ -260,6 +260,29 @@ def analyse_pages(outdir, rec, r):
                         rec.violation(f"formula-missing:{stem}.{names[0]}:code", f"{stem}.{names[0]}: the :laws:symbol:: placeholder was not replaced by a code rendering", dict(case, member=names[0]))
                     if ":laws:latex::" in doc and ".. math::" not in blk:
                         rec.violation(f"formula-missing:{stem}.{names[0]}:latex", f"{stem}.{names[0]}: the :laws:latex:: placeholder was not replaced by a LaTeX rendering", dict(case, member=names[0]))
+            # ... and a public function with a docstring is a documented function
+            for stmt in body:
+                if isinstance(stmt, ast.FunctionDef) and not stmt.name.startswith("_") and ast.get_docstring(stmt) is not None:
+                    rec.hit("documented_functions_expected")
+                    if f".. py:function:: {stmt.name}(" not in text:
+                        rec.violation(f"function-missing:{stem}.{stmt.name}", f"{stem}.rst lacks the documented function {stmt.name}", dict(case, function=stmt.name))
+            # the description of the page is the module docstring after its title: every non-empty line of it, in order,
+            # and the title is not repeated below itself
+            doc_lines = (ast.get_docstring(tree) or "").splitlines()
+            brk = next((i_ for i_, l_ in enumerate(doc_lines) if l_ and set(l_) <= {"="} or l_ and set(l_) <= {"-"}), None)
+            if brk is not None and brk >= 1:
+                title = doc_lines[brk - 1].strip()
+                head = text.split(".. py:currentmodule::")[0]
+                rec.hit("descriptions_checked")
+                if head.count("\n" + doc_lines[brk] + "\n") + head.startswith(doc_lines[brk]) > 1 or head.splitlines().count(title) != 1:
+                    rec.violation(f"description-unfaithful:{stem}:title-repeated", f"{stem}.rst repeats its title / section break inside the description", case)
+                pos = 0
+                for l_ in [x.strip() for x in doc_lines[brk + 1:] if x.strip() and not re.search(r":\w+:`", x)]:   # (lines with roles are rewritten)
+                    j_ = head.find(l_, pos)
+                    if j_ < 0:
+                        rec.violation(f"description-unfaithful:{stem}:line-missing", f"{stem}.rst lacks the description line {l_[:80]!r} of the module docstring (or has it out of order)", case)
+                        break
+                    pos = j_ + len(l_)
         except SyntaxError:
             pass
         for name, block in blocks.items():
